@@ -394,6 +394,8 @@ def alg_step(case, reg, toks, t, fails):
         return True
     if op == "alg":
         kind, other, script = toks[2], toks[3], toks[4]
+        if kind == "difference_ref":
+            kind = "difference"      # the same operation on sets of references to the elements
         b = case.state[other]["ents"]
         ca, cb = [e[0] for e in a], [e[0] for e in b]
         want = {"union": set(ca) | set(cb), "intersection": set(ca) & set(cb),
@@ -500,6 +502,28 @@ def eq_step(case, reg, toks, t, fails):
         g = t["snaps"].get(r2)
         if g is not None and g["ents"] != pre:
             fails.append("comparison changed operand %s" % r2)
+    return True
+
+
+def extref_step(case, reg, toks, t, fails):
+    """`Extend<&T>`: a set of plain numbers built from the first list, extended by reference with the
+    second = the distinct numbers in order of first appearance; more than `capacity` of them: panic."""
+    cap = case.caps[reg]
+    nums = [int(x) for x in toks[2].strip("[]").split(",") if x] + [int(x) for x in toks[3].strip("[]").split(",") if x]
+    want = []
+    for x in nums:
+        if x not in want:
+            want.append(x)
+    if len(want) > cap:
+        if t["outcome"] == "ok":
+            fails.append("%s extend_ref: %d distinct elements went into capacity %d" % (reg, len(want), cap))
+        return True
+    if t["outcome"] != "ok":
+        fails.append("%s extend_ref of %d distinct elements (capacity %d) ended %s" % (reg, len(want), cap, t["outcome"]))
+        return True
+    exp = "[%d,[%s]]" % (len(want), ",".join(str(x) for x in want))
+    if t["ret"] != exp:
+        fails.append("%s extend_ref %s %s gives %s, the distinct elements in order are %s" % (reg, toks[2], toks[3], t["ret"], exp))
     return True
 
 
@@ -978,6 +1002,8 @@ def run(prop, ops_path, impl_path, profile):
                             set_step(case, reg, toks, t, True, fails)
                         if "full" in fam and op in ("insert", "replace"):
                             set_step(case, reg, toks, t, True, fails)
+                    if op == "extend_ref" and fam & {"set", "bulk", "uniq", "struct"}:
+                        extref_step(case, reg, toks, t, fails)
                     if "bulk" in fam and op in ("from_iter", "extend"):
                         bulk_step(case, reg, toks, t, True, fails)
                     if "alg" in fam and op in ("alg", "is_subset", "is_superset", "is_disjoint", "sub"):
